@@ -72,6 +72,11 @@ def verify_functions(rep: core.Report, module_names, quals, classes, prop=None, 
                             "size": ob.size, "kind": ob.kind})
         f = rep.functions.get(ob.function, {})
         f["discharged"] = f.get("discharged", 0) + (1 if verdict == "discharged" else 0)
+        if verdict in ("refuted", "refuted-bounded") and f.get("locals_remapped") and ob.kind != "cover":
+            # the contract's local names were re-mapped by position onto renamed locals: good enough to find a proof, not to refute
+            rep.undecided.append(f"{ob.name}: {verdict}, but not trusted: the sidecar contract's locals were re-mapped onto renamed "
+                                 f"locals {f['locals_remapped']}")
+            continue
         if verdict == "refuted-bounded":
             # counter-model found only by the ground search over a bounded universe of names: a candidate that
             # becomes a violation only when a bounded group of the same property exhibits a failing input
